@@ -12,7 +12,7 @@ func tokenString(s string) string {
 	s = strings.Trim(s, " \t\n\r")
 	lastChar := len(s) -1
 	if s[0] == char_doublequote && s[lastChar] == char_doublequote {
-		return s[1:lastChar]
+		return unescape(s[1:lastChar])
 	}
 	if s[0] == char_singlequote && s[lastChar] == char_singlequote {
 		return s[1:lastChar]
@@ -57,10 +57,42 @@ func chkErr2(l *lexer, keyword string, extension *meta.Extension) bool {
 }
 
 func trimQuotes(s string) string {
-    if s[0] == '"' {
-        return s[1:len(s)-1]
-    }
-    return s
+	if len(s) >= 2 && (s[0] == '"' || s[0] == '\'') && s[len(s)-1] == s[0] {
+		return s[1 : len(s)-1]
+	}
+	return s
+}
+
+// unescape the four escape sequences of a double quoted string RFC7950 Sec 6.1.3
+func unescape(s string) string {
+	if !strings.Contains(s, "\\") {
+		return s
+	}
+	var sb strings.Builder
+	for i := 0; i < len(s); i++ {
+		if s[i] == '\\' && i+1 < len(s) {
+			switch s[i+1] {
+			case 'n':
+				sb.WriteByte('\n')
+				i++
+				continue
+			case 't':
+				sb.WriteByte('\t')
+				i++
+				continue
+			case '"':
+				sb.WriteByte('"')
+				i++
+				continue
+			case '\\':
+				sb.WriteByte('\\')
+				i++
+				continue
+			}
+		}
+		sb.WriteByte(s[i])
+	}
+	return sb.String()
 }
 
 %}
